@@ -18,9 +18,9 @@ SPECS = {'quick': dict(R=5, L=3, A=3), 'thorough': dict(R=6, L=4, A=4)}
 CLOSERS = ['}', ']', '\\)', '\\]', '$', '\\end{itemize}']
 
 
-def garbage_words():
+def garbage_words(maxlen=2):
     out = ['']
-    for n in (1, 2):
+    for n in range(1, maxlen + 1):
         for w in itertools.product(words.SIGMA_R, repeat=n):
             out.append(''.join(w))
     return out
@@ -33,8 +33,9 @@ def plan(tier):
     try:
         from mc import docgen
         shards += [('suffix', sh) for sh in docgen.shards(tier, purpose='prefix')]
-        ddrule = ('; fault part: ' + docgen.describe(tier, purpose='prefix') + ' followed by each stray closer of %r and each of the '
-                  '%d garbage words of length <= 2 over the raw alphabet' % (CLOSERS, len(garbage_words())))
+        ddrule = ('; fault part: ' + docgen.describe(tier, purpose='prefix') + ' (those ending in a closed construct) followed by each stray '
+                  'closer of %r and each garbage word of length <= 1 over the raw alphabet (<= 2 for single-item documents in the '
+                  'thorough tier)' % (CLOSERS,))
     except ImportError:
         pass
     return dict(
@@ -119,14 +120,15 @@ def run_shard(shard, tier, acc):
             acc.sample(dict(s=s, ctx=ctx))
     else:
         from mc import docgen
-        gw = garbage_words()
+        gw1, gw2 = garbage_words(1), garbage_words(2)
         for doc in docgen.iter_shard(tier, sh, purpose='prefix'):
+            gw = gw2 if (len(doc.items) == 1 and tier == 'thorough') else gw1
             exp = _expected_prefix(doc.text, doc.ctx)
             if exp is None:
                 acc.count('prefix_docs_not_strictly_parseable')   # C02 decides that
                 continue
             acc.count('prefix_docs')
-            for closer in doc.stray_closers(CLOSERS):
+            for closer in CLOSERS:
                 for g in gw:
                     check_suffix(doc.text, doc.ctx, closer, g, exp, acc)
             acc.sample(dict(doc=doc.text, ctx=doc.ctx))
